@@ -2,7 +2,7 @@
    Every modelled API is a memoized traversal whose node function only appends to the output heap;
    for those the input heap is a prefix of the output heap, whatever the outcome (also on failure). *)
 From Fiddle Require Import PyBase PySlice Sig ArgStore PyCall Heap Traverse Build Build_stmt
-  Traverse_proofs Build_proofs Copy Tags Eq Transform C08Check Frame_proofs Anchors.
+  Traverse_proofs Build_proofs Copy Tags Eq Transform C08Check Frame_proofs.
 
 Theorem C17_frame : forall e h on_node,
   wf_b e h = true -> appends on_node ->
